@@ -9,6 +9,9 @@ require (
 	golang.org/x/tools v0.23.0
 )
 
-require github.com/pkg/errors v0.9.1 // indirect
+require (
+	github.com/goose-lang/primitive v0.1.0 // indirect
+	github.com/pkg/errors v0.9.1 // indirect
+)
 
 replace github.com/goose-lang/goose => /repo
